@@ -328,6 +328,9 @@ func Generate(profile string, seed uint64, tier string) (*Scenario, error) {
 	case "C16c":
 		sc.Property = "C16"
 		genC16c(g, sc, tier)
+	case "C07c":
+		sc.Property = "C07"
+		genC07c(g, sc, tier)
 	default:
 		return genOther(g, sc, profile, tier)
 	}
@@ -501,7 +504,7 @@ func Execute(sc *Scenario) *Verdict {
 		return RunC15Scenario(sc)
 	case "C08", "C10", "C17", "C18":
 		return RunJobScenario(sc)
-	case "C05", "C02c", "C12c", "C13c", "C19c":
+	case "C05", "C02c", "C12c", "C13c", "C19c", "C07c":
 		return RunConcScenario(sc)
 	case "C04", "C07", "C12x", "C13", "C19", "C20":
 		return RunCrashScenario(sc)
